@@ -510,6 +510,49 @@ func runC08(r *mc.Run) {
 			}
 		}
 	}
+	// 6c. an expectation that spells the quote's value in another byte order (reversed, GUID mixed-endian, every 2 / 4 / 8
+	// bytes reversed, halves exchanged): equal means equal octet for octet
+	for _, f := range optFields {
+		v0 := val(f)
+		rev := func(x []byte) {
+			for i, j := 0, len(x)-1; i < j; i, j = i+1, j-1 {
+				x[i], x[j] = x[j], x[i]
+			}
+		}
+		for _, mode := range []string{"reversed", "guid-mixed-endian", "each-2-reversed", "each-4-reversed", "each-8-reversed", "halves-exchanged"} {
+			v := append([]byte(nil), v0...)
+			switch mode {
+			case "reversed":
+				rev(v)
+			case "guid-mixed-endian":
+				if len(v) >= 8 {
+					rev(v[0:4])
+					rev(v[4:6])
+					rev(v[6:8])
+				}
+			case "halves-exchanged":
+				h := len(v) / 2
+				copy(v, append(append([]byte{}, v0[h:]...), v0[:h]...))
+			default:
+				n := map[string]int{"each-2-reversed": 2, "each-4-reversed": 4, "each-8-reversed": 8}[mode]
+				for o := 0; o+n <= len(v); o += n {
+					rev(v[o : o+n])
+				}
+			}
+			if bytes.Equal(v, v0) {
+				continue
+			}
+			o := &validate.Options{}
+			f.set(o, v)
+			add("reencoded/"+f.name+"/"+mode, raw0, o)
+			// ... and the other way round: the quote carries the re-encoded value, the option the plain one
+			m := append([]byte(nil), raw0...)
+			copy(m[f.off:f.off+f.len], v)
+			o2 := &validate.Options{}
+			f.set(o2, append([]byte(nil), v0...))
+			add("reencoded-in-quote/"+f.name+"/"+mode, m, o2)
+		}
+	}
 	// 7. cross-wiring: option A set to the quote's value of another same-sized field B
 	for _, a := range optFields {
 		for _, b := range optFields {
